@@ -32,6 +32,7 @@ import (
 	"sort"
 	"strings"
 	"sync"
+	"sync/atomic"
 	"testing"
 	"time"
 
@@ -743,7 +744,10 @@ type c04JwtGate struct {
 	// virtual, when set, makes the sequence runner advance the timex clock (which only
 	// Parser.history's reset reads) by the returned amount before some steps
 	virtual func(r *rand.Rand) time.Duration
-	layer   string
+	// source, when set, supplies the request of each step and the (virtual, jwt.TimeFunc)
+	// time at which it is presented, instead of a freshly generated token at time.Now()
+	source func(step int, label string) (c04JwtCase, int64)
+	layer  string
 	// wantCallback: an unauthorized callback is configured and must run once per rejection
 	wantCallback bool
 	secret       string
@@ -922,7 +926,12 @@ func c04RunJwtSequence(m *vk.M, idx int, g *c04JwtGate, classes []string, r *ran
 			}
 		}
 		now := time.Now().Unix()
-		c := c04GenJwt(r, cls, g.secret, g.prev, now)
+		var c c04JwtCase
+		if g.source != nil {
+			c, now = g.source(step, cls)
+		} else {
+			c = c04GenJwt(r, cls, g.secret, g.prev, now)
+		}
 		want, custom, why := c04VerifyJWT(c.Auth, c.HasHdr, g.secret, g.prev, now)
 		if want != c.Want {
 			m.Inconclusive("harness self-check: generator intended %d for class %s but the reference verifier says %d (%s): %s", c.Want, c.Class, want, why, desc(step, c))
@@ -1123,4 +1132,168 @@ func TestVerifC04JwtParser(t *testing.T) {
 // engine.appendAuthHandler (default chain), real router, real HTTP.
 func TestVerifC04JwtEngine(t *testing.T) {
 	c04JwtLayer(t, "engine", vk.N(16, 320), 50, 300)
+}
+
+// ---------------------------------------------------------------------------
+// time as part of the history: the SAME token presented before its nbf, inside its
+// validity and after its exp, in every order, on one Authorize / Parser / engine
+// route. The library's clock seam jwt.TimeFunc is driven by the harness, so these
+// verdicts do not depend on the wall clock at all (every presentation is >= 1 h of
+// virtual time away from nbf/exp).
+
+type c04TimedToken struct {
+	auth      string
+	nbf, exp  int64 // 0 = claim absent
+	signedBy  string
+	presented int
+}
+
+func c04JwtTimeHistories(t *testing.T, layer string, gates int) {
+	logx.Disable()
+	m := vk.New(t, "C04", "the same token re-presented on one gate at virtual times (jwt.TimeFunc) before nbf / inside validity / after exp, all 6 orders per gate interleaved over 6-8 tokens, single secret and transition (signed by current or previous secret): admitted (200, claims visible) iff the reference verifier accepts it AT THAT TIME, else 401")
+	defer m.Done()
+	var vnow int64
+	old := jwt.TimeFunc
+	jwt.TimeFunc = func() time.Time { return time.Unix(atomic.LoadInt64(&vnow), 0) }
+	defer func() { jwt.TimeFunc = old }()
+	var st c04JwtStats
+	perms := [][3]int{{0, 1, 2}, {0, 2, 1}, {1, 0, 2}, {1, 2, 0}, {2, 0, 1}, {2, 1, 0}}
+	phaseName := []string{"before-nbf", "inside-validity", "after-exp"}
+	for idx := 1; idx <= gates; idx++ {
+		if !m.Only(idx) {
+			continue
+		}
+		r := m.Rand("jwt-time", layer, idx)
+		base := time.Now().Unix() + int64(r.Intn(400)-200)*86400
+		secret, prev := c04RandSecret(r), ""
+		mode := idx % 3 // 0 single secret, 1 transition/current signs, 2 transition/previous signs
+		if mode != 0 {
+			prev = c04RandSecret(r)
+			for prev == secret {
+				prev = c04RandSecret(r)
+			}
+		}
+		var g *c04JwtGate
+		switch layer {
+		case "handler":
+			g = c04HandlerGate(secret, prev, idx%2)
+			g.wantCallback = idx%2 != 0
+		case "parser":
+			g = c04ParserGate(secret, prev, 24*time.Hour)
+		default:
+			var err error
+			if g, err = c04EngineGate(secret, prev); err != nil {
+				m.Inconclusive("cannot build engine gate: %v", err)
+				return
+			}
+		}
+		// tokens: a window [nbf, exp] of >= 3 h around base; some without nbf or without exp
+		ntok := 6 + r.Intn(3)
+		toks := make([]*c04TimedToken, ntok)
+		for i := range toks {
+			tk := &c04TimedToken{}
+			tk.nbf = base - c04Far(r)
+			tk.exp = base + c04Far(r) + 2*c04TimeMargin
+			claims := c04RandClaims(r)
+			claims["tokno"] = i
+			switch r.Intn(5) {
+			case 0:
+				tk.nbf = 0
+			case 1:
+				if i >= 6 { // the six permutation tokens keep an exp
+					tk.exp = 0
+				}
+			}
+			if tk.nbf != 0 {
+				claims["nbf"] = tk.nbf
+				if r.Intn(2) == 0 {
+					claims["iat"] = tk.nbf
+				}
+			}
+			if tk.exp != 0 {
+				claims["exp"] = tk.exp
+			}
+			key := secret
+			tk.signedBy = "secret"
+			if mode == 2 || (mode == 1 && i%4 == 3) {
+				key, tk.signedBy = prev, "prev"
+			}
+			tk.auth = "Bearer " + c04SignedToken(r, c04HS[r.Intn(len(c04HS))], key, claims)
+			toks[i] = tk
+		}
+		// schedule: token i (< 6) goes through permutation i of the three phases; the steps of
+		// different tokens are interleaved at random; afterwards random (token, phase) picks
+		type stepT struct{ tok, phase int }
+		var queues [][]stepT
+		for i := 0; i < 6; i++ {
+			var q []stepT
+			for _, ph := range perms[(i+idx)%6] {
+				q = append(q, stepT{i, ph})
+			}
+			queues = append(queues, q)
+		}
+		var steps []stepT
+		for len(queues) > 0 {
+			k := r.Intn(len(queues))
+			steps = append(steps, queues[k][0])
+			if queues[k] = queues[k][1:]; len(queues[k]) == 0 {
+				queues = append(queues[:k], queues[k+1:]...)
+			}
+			if r.Intn(3) == 0 { // immediate repetition: hit whatever the gate may have remembered
+				steps = append(steps, steps[len(steps)-1])
+			}
+		}
+		for i := 0; i < 30; i++ {
+			steps = append(steps, stepT{r.Intn(ntok), r.Intn(3)})
+		}
+		labels := make([]string, len(steps))
+		for i, sp := range steps {
+			labels[i] = fmt.Sprintf("tok%d@%s", sp.tok, phaseName[sp.phase])
+		}
+		g.source = func(step int, _ string) (c04JwtCase, int64) {
+			sp := steps[step]
+			tk := toks[sp.tok]
+			c := c04JwtCase{Auth: tk.auth, HasHdr: true, Want: c04Admit}
+			var at int64
+			switch sp.phase {
+			case 0:
+				if tk.nbf == 0 { // no nbf: long ago is still fine
+					at = base - c04Far(r)
+				} else {
+					at, c.Want = tk.nbf-c04Far(r), c04Reject
+				}
+			case 1:
+				at = base + int64(r.Intn(c04TimeMargin))
+			default:
+				if tk.exp == 0 {
+					at = base + c04Far(r)
+				} else {
+					at, c.Want = tk.exp+c04Far(r), c04Reject
+				}
+			}
+			seen := "first-presentation"
+			if tk.presented > 0 {
+				seen = "re-presented"
+			}
+			tk.presented++
+			c.Class = "same-token:" + phaseName[sp.phase] + ":" + seen + ":signed-by-" + tk.signedBy
+			atomic.StoreInt64(&vnow, at)
+			m.Count("jwt.time."+phaseName[sp.phase]+"."+seen, 1)
+			return c, at
+		}
+		c04RunJwtSequence(m, idx, g, labels, r, &st)
+		g.close()
+		m.Count("jwt.time."+layer+".gates", 1)
+		if m.ViolCount() > 30 {
+			break
+		}
+	}
+}
+
+// TestVerifC04JwtTimeHistories: handler.Authorize, token.Parser and engine routes.
+func TestVerifC04JwtTimeHistories(t *testing.T) {
+	n := vk.N(9, 180)
+	t.Run("handler", func(t *testing.T) { c04JwtTimeHistories(t, "handler", n) })
+	t.Run("parser", func(t *testing.T) { c04JwtTimeHistories(t, "parser", n) })
+	t.Run("engine", func(t *testing.T) { c04JwtTimeHistories(t, "engine", n) })
 }
